@@ -459,6 +459,7 @@ const (
 	convRefuted
 	convRegressed
 	convStarved
+	convFailing // handshakes keep failing: decided by the safety clause, nothing to wait for
 )
 
 // awaitConvergence: handshakes begun after stamp sEnd must present P within the
@@ -466,6 +467,7 @@ const (
 func (hr *histRun) awaitConvergence(P int64, sEnd int64, tEnd time.Time) (convOutcome, time.Duration, []hsRec, string) {
 	idx := 0
 	stale := 0
+	failing := 0
 	var staleSample []hsRec
 	var first *hsRec
 	stable := 0
@@ -474,8 +476,14 @@ func (hr *histRun) awaitConvergence(P int64, sEnd int64, tEnd time.Time) (convOu
 		idx += len(recs)
 		for i := range recs {
 			r := recs[i]
-			if r.Err != "" {
-				continue // judged by the safety clause
+			if r.Err != "" { // judged by the safety clause
+				if !r.Env && r.H0 > sEnd {
+					failing++
+					if failing >= staleToRefute && first == nil {
+						return convFailing, 0, nil, ""
+					}
+				}
+				continue
 			}
 			if first == nil {
 				if r.H0 < sEnd {
@@ -552,6 +560,8 @@ func (hr *histRun) convergencePoint(P int64, sEnd int64, tEnd time.Time, where s
 		return true
 	case convStarved:
 		hr.res.inconclusive = where + ": " + msg
+		return true
+	case convFailing:
 		return true
 	}
 	return false
